@@ -7,7 +7,7 @@
 From Coq Require Import ZArith Reals List String Permutation Lra Lia.
 Import ListNotations.
 From FV.C11 Require Import Model Entry Proofs ProofsVol ProofsArea ProofsRef ProofsGauss.
-From FV.C11 Require Import BrickModel ProofsBrick ProofsBrickGeom.
+From FV.C11 Require Import BrickModel ProofsBrick ProofsBrickGeom ProofsPolygon.
 From FV.C11.gen Require Import Kernels Brick.
 Open Scope R_scope.
 
@@ -166,6 +166,20 @@ Proof. exact tri_crosses_affine. Qed.
 Theorem C11_scaling_is_similarity : forall lam,
   similarity (scaling lam) (Rabs lam) /\ mdet ROps (scaling lam) = lam * lam * lam.
 Proof. intros; split; [apply similarity_scaling | apply mdet_scaling]. Qed.
+
+(* ---- polygons with any number of vertices (hand model of the fan loop
+   _trianglate_polygon + _calculate_tri_crosses + sum): the fan's vector area
+   transforms with the cofactor matrix for EVERY M; the fan area (what
+   calculate_element_areas computes for polygons in its default mode) scales with
+   s^2 under every similarity (rigid motions, reflections, scalings) *)
+Theorem C11_polygon_fan_vector_area_affine : forall M t pts,
+  polygon_fan_sum ROps (map (A M t) pts)
+  = option_map (mapply ROps (cof ROps M)) (polygon_fan_sum ROps pts).
+Proof. exact polygon_fan_sum_affine. Qed.
+Theorem C11_polygon_fan_area_similarity : forall M s t pts, similarity M s -> 0 <= s ->
+  polygon_area_fan ROps (map (A M t) pts)
+  = option_map (fun a => s * s * a) (polygon_area_fan ROps pts).
+Proof. exact polygon_area_fan_similarity. Qed.
 
 (* ---- all quad modes agree on parallelograms (= affine images of the unit
         square) and equal the closed form |(p1-p0) x (p3-p0)| *)
